@@ -21,7 +21,8 @@ RULE = ('n<=5 distinct keys, m in 0..n+1, each signature drawn from {listed '
         'signatures for n<=4, sampled for n=5; also make_multisig_lock + '
         'single-sig witnesses through run_auth_scripts. distinct = by '
         '(n, m, signature kinds, order); non-trivial = at least one valid and '
-        'one invalid/duplicate signature, or m == n')
+        'one invalid/duplicate signature, or m == n'
+        ' [plus non-idempotent extension plugins (two thirds of those runs inside a block body), shuffled field order, non-default limits]')
 ASSUMPTIONS = [
     'per-signature validity from the C02 model with libsodium called directly',
     'keys of one case are pairwise distinct (statement: n distinct keys)',
